@@ -7,6 +7,7 @@ import (
 	"sort"
 
 	neatmath "github.com/yaricom/goNEAT/v4/neat/math"
+	"github.com/yaricom/goNEAT/v4/neat/network"
 )
 
 // C18 - activation functions match their definitions, ranges and names.
@@ -310,6 +311,28 @@ func c18Modules(c *Ctx, n int) {
 			if !vecBitsEqual(in, v) {
 				c.Violate("module-mutates-input", d, "%s modified its input vector", name)
 				return
+			}
+			// the same through the network package: a control node whose input nodes carry these values (modules of changing
+			// input counts follow each other)
+			if i%3 == 0 {
+				cn := network.NewNNode(1000, network.HiddenNeuron)
+				cn.ActivationType = typ
+				for j, x := range v {
+					src := network.NewNNode(j+1, network.InputNeuron)
+					src.SensorLoad(x)
+					cn.Incoming = append(cn.Incoming, network.NewLink(1.0, src, cn, false))
+				}
+				dst := network.NewNNode(500, network.HiddenNeuron)
+				cn.Outgoing = append(cn.Outgoing, network.NewLink(1.0, cn, dst, false))
+				c.Count("module.through_control_node", 1)
+				if err := network.ActivateModule(cn, factory); err != nil {
+					c.Violate("module-error", d, "ActivateModule with %s failed: %v", name, err)
+					return
+				}
+				if fbits(dst.Activation) != fbits(want) && !(math.IsNaN(dst.Activation) && math.IsNaN(want)) {
+					c.Violate("module-value", d, "a control node with %s over the inputs %v writes %v to its output node, expected %v", name, v, dst.Activation, want)
+					return
+				}
 			}
 			h := newHasher()
 			h.i(int(typ))
